@@ -598,4 +598,83 @@ end PedVerif.Gen.Mixins
 '''
 
 
-FILES = {'Mixins.lean': gen_mixins}
+def class_shape(tree, cls):
+    """(names assigned at class level, dunder methods defined in the class body)"""
+    for node in tree.body:
+        if isinstance(node, ast.ClassDef) and node.name == cls:
+            state, dunders = [], []
+            for n in node.body:
+                if isinstance(n, (ast.FunctionDef, ast.AsyncFunctionDef)) and n.name.startswith('__') and n.name.endswith('__'):
+                    dunders.append(n.name)
+                elif isinstance(n, ast.Assign):
+                    state += [ast.unparse(t) for t in n.targets]
+                elif isinstance(n, (ast.AnnAssign, ast.AugAssign)):
+                    state.append(ast.unparse(n.target))
+            return state, dunders, [ast.unparse(k) for k in node.keywords]
+    raise Skip(f'class {cls} not found')
+
+
+def module_state(tree):
+    """names bound by module-level statements other than imports, defs and classes"""
+    out = []
+    for n in tree.body:
+        if isinstance(n, ast.Assign):
+            out += [ast.unparse(t) for t in n.targets]
+        elif isinstance(n, (ast.AnnAssign, ast.AugAssign)):
+            out.append(ast.unparse(n.target))
+    return out
+
+
+def attribute_stores(tree):
+    """`<name>.<attr> = …` / setattr-free attribute writes on plain names anywhere in the file, `self.<attr>` aside: `function.slot = value`
+    is how state is shared between calls without a global"""
+    out = []
+    for n in ast.walk(tree):
+        targets = []
+        if isinstance(n, ast.Assign):
+            targets = n.targets
+        elif isinstance(n, (ast.AnnAssign, ast.AugAssign)):
+            targets = [n.target]
+        for t in targets:
+            for e in ast.walk(t):
+                if isinstance(e, ast.Attribute) and isinstance(e.ctx, ast.Store) and isinstance(e.value, ast.Name) and e.value.id != 'self':
+                    out.append(f'{e.value.id}.{e.attr}')
+    return sorted(set(out))
+
+
+def gen_shape(repo):
+    """facts about the two mixin modules that do not depend on the statement shapes gen_mixins insists on: class-creation hooks, per-class
+    and per-module state, attribute slots on functions"""
+    gm, wdm = ast.parse(src(repo, GM)), ast.parse(src(repo, WDM))
+    gs, gd, gk = class_shape(gm, 'GenericMixin')
+    ws, wd, wk = class_shape(wdm, 'WithDecoratedMethods')
+
+    def lst(xs):
+        return '[' + ', '.join(lean_str(x) for x in xs) + ']'
+    return HEADER.format(rel=GM + ' and ' + WDM) + f'''namespace PedVerif.Gen.MixinsShape
+
+/-- names assigned in the body of `class GenericMixin` (a per-class cache would be one) -/
+def gmClassState : List String := {lst(gs)}
+/-- dunder methods defined in the body of `class GenericMixin` (`__init_subclass__`, `__class_getitem__`, `__new__`, … would be
+    class-creation / instantiation hooks that other bases can shadow or cut off) -/
+def gmDunderMethods : List String := {lst(gd)}
+/-- keywords of the class statement (`metaclass=…`) -/
+def gmClassKeywords : List String := {lst(gk)}
+/-- the same for `class WithDecoratedMethods` -/
+def wdmClassState : List String := {lst(ws)}
+def wdmDunderMethods : List String := {lst(wd)}
+def wdmClassKeywords : List String := {lst(wk)}
+/-- names bound by module-level assignments -/
+def gmModuleState : List String := {lst(module_state(gm))}
+def wdmModuleState : List String := {lst(module_state(wdm))}
+/-- `<name>.<attr> = …` anywhere in the two files (`self.<attr>` aside): a slot on a function or class shared between calls -/
+def gmAttributeStores : List String := {lst(attribute_stores(gm))}
+def wdmAttributeStores : List String := {lst(attribute_stores(wdm))}
+/-- `global` / `nonlocal` statements -/
+def scopeEscapes : Nat := {sum(isinstance(n, (ast.Global, ast.Nonlocal)) for t in (gm, wdm) for n in ast.walk(t))}
+
+end PedVerif.Gen.MixinsShape
+'''
+
+
+FILES = {'Mixins.lean': gen_mixins, 'MixinsShape.lean': gen_shape}
